@@ -187,6 +187,14 @@ def run_case(case):
         moved = len(tables[src])
         cfg.update({'source': src, 'to_end': to_end, 'batch_size': batch, 'target_name': tname})
         cov['config']['duplicate/%s/batch%d' % ('end' if to_end else 'after', batch)] = 1
+        if fam == 'duplicate' and rng.random() < 0.35 and len(names) >= 1:
+            # delete one of the twins (or another resource) right after: the survivor must still hold every row
+            victim = rng.choice([src, out_name] + [n for n in names if n != src][:1])
+            steps.append(d.delete_resource(victim))
+            exp_order = [n for n in exp_order if n != victim]
+            exp.pop(victim, None)
+            cfg['then_delete'] = victim
+            cov['config']['duplicate/then_delete_%s' % ('original' if victim == src else 'copy' if victim == out_name else 'other')] = 1
         if fam == 'duplicate_alias':
             # in-place mutators applied to the ORIGINAL only, downstream of duplicate
             kind = rng.choice(['add_field', 'find_replace', 'set_type', 'add_computed', 'delete_fields'])
